@@ -47,13 +47,17 @@ class EnsureConnection(Contract):
 
 # ---- generic clauses of a handler --------------------------------------------------------------------
 def handler_clauses(command, device_error=-905):
+    @only("C04")
     def documented_code(result): return in_docset(command, result[0])
+    @only("C11")
     def timeout_is_device_error(result, self, g, old):
         return implies(not ci(old) and g.nx > old.g.nx and classify(g) == K_TIMEOUT,
                        result[0] == device_error and not self._comm_issue)
+    @only("C11")
     def link_error_is_device_error_and_flagged(result, self, g, old):
         return implies(not ci(old) and g.nx > old.g.nx and classify(g) == K_COMM,
                        result[0] == device_error and self._comm_issue)
+    @only("C11")
     def failed_repair_is_device_error(result, self, g, old):
         # (a device *error status* answered during the repeated bring-up is not a failure to re-establish
         # the connection; what the handler then answers is not constrained by C11 - see DESIGN observations)
@@ -172,30 +176,37 @@ class Sign(Contract):
     modifies_self = dict(_comm_issue=BOOL_)
     inline_callees = ("HSM2Protocol._validate_message", "HSM2Protocol._validate_auth")
     max_paths = 6000
+    exception_serves = ("C03", "C04")
 
     def validated(request): return sign_validated(request) and path_wf(request["keyId"])
     requires = [validated]
 
     # ---- C02 second stage: rejected => nothing sent to the device
+    @only("C02")
     def rejection_sends_nothing(result, request, g, old):
         m = request["message"]
         return implies(not ci(old) and not msg_hash(m) and (not jhas(request, "auth") or result[0] == -101),
                        ghost_same_log(g, old.g))
+    @only("C02")
     def authorized_needs_auth(result, request):
         return implies(not msg_hash(request["message"]) and not jhas(request, "auth"), result[0] == -101)
     # ---- C01 unauthorized: one message with path and hash
+    @only("C01")
     def unauthorized_message(result, request, g, old):
         m = request["message"]
         return implies(not ci(old) and msg_hash(m),
                        ghost_step(g, old.g, su_message(request["keyId"], jstr(m["hash"]))))
+    @only("C01", "C04")
     def success_iff_device_signed(result, request, g, old):
         return implies(not ci(old) and result[0] == 0, ok(g) and (g.last_resp[2] == 0x81) and der_ok(g.last_resp[3:]))
+    @only("C01", "C13")
     def signature_verbatim(result, g):
         if len(result) == 2:
             sg = result[1]["signature"]
             return result[0] == 0 and sg["r"] == hexs(der_r(g.last_resp[3:])) and sg["s"] == hexs(der_s(g.last_resp[3:]))
         return result[0] != 0
     # ---- C04
+    @only("C04")
     def named_causes(result, request, g, old):
         m = request["message"]
         return implies(not ci(old) and classify(g) == K_ERR and g.nx > old.g.nx,
